@@ -284,11 +284,79 @@ def _fmt(a):
     return np.array2string(np.asarray(a, dtype=float), precision=6, threshold=40).replace('\n', ' ')
 
 
+# ---- dimension sweeps (tools/SWEEP_BRIEF.md): typed stacks, units, forms of the stack, repeated calls ---------------------------
+def _rclose(a, b, tol):
+    """like harness.close, but relative to the magnitude of the EXPECTED values without the floor at 1 (values in units of
+    1e-12 would pass any absolute tolerance)"""
+    a = np.asarray(a, dtype=float)
+    b = np.asarray(b, dtype=float)
+    if a.shape != b.shape or not np.array_equal(np.isnan(a), np.isnan(b)):
+        return False
+    ok = ~np.isnan(b)
+    if not ok.any():
+        return True
+    scale = float(np.max(np.abs(b[ok])))
+    if scale == 0 or not np.isfinite(scale):
+        return bool(np.array_equal(a[ok], b[ok]))
+    return bool(np.max(np.abs(a[ok] - b[ok])) <= tol * scale)
+
+
+def _typed(v, dtype):
+    """(array handed to the library, the same values as float64 for the definition).  Only floating types can hold NaN, so
+    the typed NaN-bearing stacks are float32; integer types are used for complete stacks only."""
+    v = np.asarray(v, dtype=float)
+    if dtype in (None, 'float64'):
+        return v.copy(), v.copy()
+    t = np.asarray(v).astype(dtype)
+    return t, np.asarray(t, dtype=float)
+
+
+def _dtype_tol(tol, *dtypes):
+    """a float32 stack may be processed in float32 (the statement fixes no precision): 1e-5 then"""
+    return max(tol, 1e-5) if any(d == 'float32' for d in dtypes) else tol
+
+
+def _stack_form(v, n, form):
+    """the same stack of RDM vectors in another legitimate form: 3-D square matrices (NaN at [i, j] and [j, i]), Fortran-ordered,
+    a non-contiguous view"""
+    if form in (None, 'vectors'):
+        return v
+    if form == 'matrices':
+        out = np.zeros((v.shape[0], n, n), dtype=v.dtype)
+        for r in range(v.shape[0]):
+            for a, (i, j) in enumerate(_pairs(n)):
+                out[r, i, j] = out[r, j, i] = v[r, a]
+        return out
+    if form == 'fortran':
+        return np.asfortranarray(v)
+    if form == 'view':
+        wide = np.full((v.shape[0], 2 * v.shape[1]), 7.0).astype(v.dtype)
+        wide[:, ::2] = v
+        return wide[:, ::2]
+    raise ValueError(form)
+
+
+def _other_mask(missing, P):
+    """another mask with the same number of missing entries (a cache keyed by shape / count would mix them up)"""
+    return sorted((k + 1) % P for k in missing)
+
+
+def _as_form(seq, form):
+    if form == 'tuple':
+        return tuple(seq)
+    if form == 'ndarray':
+        return np.array(seq)
+    return list(seq)
+
+
 # =====================================================================================================
 # compare(): same masks
 # =====================================================================================================
 @oracle('C13/compare-same-mask')
 def orc_compare_same(case):
+    """sweep keys (all optional): dtype1 / dtype2 ('float32'; integer types for complete stacks), unit1 / unit2 (stack times a
+    positive number), sigma_unit, form1 / form2 (see _stack_form), again (the call is repeated after a call on another stack of
+    the same shape with ANOTHER mask of the same size; results held by the caller stay, sigma_k is unchanged)"""
     from rsatoolbox.rdm import RDMs, compare
     rs = np.random.RandomState(case['seed'])
     n = case['n_cond']
@@ -300,26 +368,61 @@ def orc_compare_same(case):
     a = _values(rs, case['n1'], P, case.get('ties', False), keep)
     b = _values(rs, case['n2'], P, case.get('ties', False), keep)
     arg, S = _sigma(case.get('sigma', 'none'), n, rs)
+    d1, d2 = case.get('dtype1'), case.get('dtype2')
+    if case.get('levels'):
+        # integer levels spread over the range of the type (squares and products leave uint8 / int16)
+        a = np.round(a / a.max() * case['levels'])
+        b = np.round(b / b.max() * case['levels'])
+    a = a * case.get('unit1', 1.0)
+    b = b * case.get('unit2', 1.0)
+    if arg is not None and 'sigma_unit' in case:
+        arg, S = arg * case['sigma_unit'], S * case['sigma_unit']
+    an, a = _typed(_with_nan(a, missing), d1)
+    bn, b = _typed(_with_nan(b, missing), d2)
+    if not all(len(set(row[keep].tolist())) >= 2 for row in np.concatenate([a, b])):
+        return 'case error: a typed row is constant'
     Vk = _spec_V(n, S)[keep][:, keep] if method.endswith('_cov') else None
     want = _spec_compare(method, a, b, keep, Vk)
-    an, bn = _with_nan(a, missing), _with_nan(b, missing)
     keep_a, keep_b = an.copy(), bn.copy()
-    r1, r2 = RDMs(an), RDMs(bn)
+    r1, r2 = RDMs(_stack_form(an, n, case.get('form1'))), RDMs(_stack_form(bn, n, case.get('form2')))
+    arg_before = None if arg is None else arg.copy()
+    kw = dict(sigma_k=arg) if method.endswith('_cov') else {}
     with warnings.catch_warnings():
         warnings.simplefilter('ignore')
-        if method.endswith('_cov'):
-            got = compare(r1, r2, method=method, sigma_k=arg)
-        else:
-            got = compare(r1, r2, method=method)
-    got = np.asarray(got, dtype=float)
+        got = compare(r1, r2, method=method, **kw)
+    held = got
+    got = np.array(got, dtype=float)
+    tol = _dtype_tol(_tol(method, case.get('sigma', 'none')), d1, d2)
     if got.shape != want.shape:
         return f'result shape {got.shape}, expected {want.shape} (n_rdm1 x n_rdm2)'
-    if not close(got, want, _tol(method, case.get('sigma', 'none'))):
+    if not close(got, want, tol):
         return (f'{method}(sigma_k={case.get("sigma", "none")}) with the common missing entries {missing}: got {_fmt(got)}, '
                 f'entry-deleted definition gives {_fmt(want)} (max diff {np.nanmax(np.abs(got - want)):.3g})')
     if not (np.array_equal(r1.dissimilarities, keep_a, equal_nan=True)
             and np.array_equal(r2.dissimilarities, keep_b, equal_nan=True)):
         return 'compare modified the dissimilarities of its arguments'
+    if arg is not None and not np.array_equal(arg, arg_before):
+        return 'compare modified sigma_k'
+    if case.get('again'):
+        miss2 = _other_mask(missing, P)
+        keep2 = np.ones(P, bool)
+        keep2[miss2] = False
+        c = _values(rs, case['n1'], P, case.get('ties', False), keep2)
+        d = _values(rs, case['n2'], P, case.get('ties', False), keep2)
+        want2 = _spec_compare(method, c, d, keep2, _spec_V(n, S)[keep2][:, keep2] if method.endswith('_cov') else None)
+        with warnings.catch_warnings():
+            warnings.simplefilter('ignore')
+            got2 = np.array(compare(RDMs(_with_nan(c, miss2)), RDMs(_with_nan(d, miss2)), method=method, **kw), dtype=float)
+            got3 = np.array(compare(r1, r2, method=method, **kw), dtype=float)
+        if not close(got2, want2, tol):
+            return (f'{method}: after a call with the missing entries {missing}, other RDMs of the same shape missing {miss2} give '
+                    f'{_fmt(got2)}, entry-deleted definition {_fmt(want2)}')
+        if not np.array_equal(np.asarray(held, dtype=float), got):
+            return f'{method}: the result held by the caller changed from {_fmt(got)} to {_fmt(held)} in later calls'
+        if not np.array_equal(got3, got):
+            return f'{method}: the identical call gives {_fmt(got3)} after {_fmt(got)}'
+        if arg is not None and not np.array_equal(arg, arg_before):
+            return 'compare modified sigma_k'
     return None
 
 
@@ -348,21 +451,41 @@ def _spec_partials(v_sub, sub_idx, n_all):
     return out
 
 
-def _make_generated(kind, rs, n_rdm, spec, euclid=False):
+def _labels(kind, n):
+    """distinct pattern labels whose sorted order differs from the pattern order (n <= 11)"""
+    if kind == 'int':
+        return [10 * ((7 * i + 3) % 11) + 3 for i in range(n)]
+    if kind == 'str':
+        return ['s%02d' % ((7 * i + 3) % 11) for i in range(n)]
+    return ['c%d' % i for i in range(n)]
+
+
+def _make_generated(kind, rs, n_rdm, spec, euclid=False, unit=1.0, dtype=None):
     """returns (RDMs object built by the real operation, spec vectors with NaN, n_cond of the result,
-    sub-RDM vectors without NaN or None, n_sub)"""
+    sub-RDM vectors without NaN or None, n_sub).
+    sweep keys of `spec`: sample (any order; the bootstrap RDM has the patterns in ascending order), sample_form (list / tuple /
+    ndarray), by ('index' | 'int' | 'str': the descriptor the patterns are selected by); labels ('int' | 'str') and conds_form
+    for from_partials"""
     from rsatoolbox.rdm import RDMs
     from rsatoolbox.rdm.combine import from_partials
     if kind == 'subsample':
         n = spec['n_cond']
         v = _sq_euclid_vectors(rs, n_rdm, n) if euclid else rs.rand(n_rdm, _n_pairs(n)) + 0.1
-        obj = RDMs(v.copy()).subsample_pattern('index', list(spec['sample']))
+        vin, v = _typed(v * unit, dtype)
+        by = spec.get('by', 'index')
+        if by == 'index':
+            obj = RDMs(vin).subsample_pattern('index', _as_form(spec['sample'], spec.get('sample_form')))
+        else:
+            lab = _labels(by, n)
+            obj = RDMs(vin, pattern_descriptors={'lab': list(lab)}).subsample_pattern(
+                'lab', _as_form([lab[i] for i in spec['sample']], spec.get('sample_form')))
         return obj, _spec_subsample(v, n, spec['sample']), len(spec['sample']), None, None
     if kind == 'partials':
-        names = ['c%d' % i for i in range(spec['n_all'])]
+        names = ['c%d' % i for i in range(spec['n_all'])] if 'labels' not in spec else _labels(spec['labels'], spec['n_all'])
         sub = list(spec['sub'])
         v = _sq_euclid_vectors(rs, n_rdm, len(sub)) if euclid else rs.rand(n_rdm, _n_pairs(len(sub))) + 0.1
-        part = RDMs(v.copy(), pattern_descriptors={'conds': [names[i] for i in sub]})
+        vin, v = _typed(v * unit, dtype)
+        part = RDMs(vin, pattern_descriptors={'conds': _as_form([names[i] for i in sub], spec.get('conds_form'))})
         obj = from_partials([part], all_patterns=names)
         return obj, _spec_partials(v, sub, spec['n_all']), spec['n_all'], v, len(sub)
     if kind == 'full':
@@ -374,14 +497,16 @@ def _make_generated(kind, rs, n_rdm, spec, euclid=False):
 
 @oracle('C13/compare-generated')
 def orc_compare_generated(case):
+    """sweep keys: unit1 / unit2, dtype1 / dtype2 of the stacks the masks are produced from (see also _make_generated)"""
     from rsatoolbox.rdm import compare
     rs = np.random.RandomState(case['seed'])
     method = case['method']
     euclid = method in MAT_METHODS
-    o1, s1, n, sub1, n_sub = _make_generated(case['kind'], rs, case['n1'], case['spec'], euclid)
-    o2, s2, _, sub2, _ = _make_generated(case['kind'], rs, case['n2'], case['spec'], euclid)
+    d1, d2 = case.get('dtype1'), case.get('dtype2')
+    o1, s1, n, sub1, n_sub = _make_generated(case['kind'], rs, case['n1'], case['spec'], euclid, case.get('unit1', 1.0), d1)
+    o2, s2, _, sub2, _ = _make_generated(case['kind'], rs, case['n2'], case['spec'], euclid, case.get('unit2', 1.0), d2)
     for o, s, nm in ((o1, s1, 'rdm1'), (o2, s2, 'rdm2')):
-        if not close(o.get_vectors(), s, 1e-12):
+        if not _rclose(o.get_vectors(), s, 1e-12):
             return (f'{case["kind"]} produced {_fmt(o.get_vectors())} for {nm}, literal definition gives {_fmt(s)} '
                     f'(missing positions {np.where(np.isnan(o.get_vectors()[0]))[0].tolist()} vs '
                     f'{np.where(np.isnan(s[0]))[0].tolist()})')
@@ -406,7 +531,9 @@ def orc_compare_generated(case):
     got = np.asarray(got, dtype=float)
     if got.shape != want.shape:
         return f'result shape {got.shape}, expected {want.shape}'
-    if not close(got, want, _tol(method, case.get('sigma', 'none'))):
+    # the squared Bures metric carries the unit of the RDMs: judged relative to its own magnitude when units are swept
+    cmp_ = _rclose if (method == 'bures_metric' and ('unit1' in case or 'unit2' in case)) else close
+    if not cmp_(got, want, _dtype_tol(_tol(method, case.get('sigma', 'none')), d1, d2)):
         return (f'{method} on a common {case["kind"]} mask (missing {np.where(~keep)[0].tolist()}): got {_fmt(got)}, '
                 f'entry-deleted definition gives {_fmt(want)}')
     return None
@@ -426,11 +553,14 @@ def orc_compare_whole_condition(case):
     names = ['c%d' % i for i in range(n_all)]
     va = _sq_euclid_vectors(rs, case['n1'], len(sub)) if method in MAT_METHODS else rs.rand(case['n1'], _n_pairs(len(sub))) + 0.1
     vb = _sq_euclid_vectors(rs, case['n2'], len(sub)) if method in MAT_METHODS else rs.rand(case['n2'], _n_pairs(len(sub))) + 0.1
+    # sweep keys: unit1 / unit2 (positive factor of the stack), dtype1 / dtype2 ('float32')
+    va, _ = _typed(va * case.get('unit1', 1.0), case.get('dtype1'))
+    vb, _ = _typed(vb * case.get('unit2', 1.0), case.get('dtype2'))
     a = RDMs(va.copy(), pattern_descriptors={'conds': [names[i] for i in sub]})
     b = RDMs(vb.copy(), pattern_descriptors={'conds': [names[i] for i in sub]})
     # the NaN-bearing versions are built from the literal placement, not by from_partials
-    A = RDMs(_spec_partials(va, sub, n_all))
-    B = RDMs(_spec_partials(vb, sub, n_all))
+    A = RDMs(_spec_partials(va, sub, n_all).astype(va.dtype))
+    B = RDMs(_spec_partials(vb, sub, n_all).astype(vb.dtype))
     kind = case.get('sigma', 'none')
     arg, _ = _sigma(kind, n_all, rs)
     kw_full, kw_sub = {}, {}
@@ -449,7 +579,8 @@ def orc_compare_whole_condition(case):
                 return f'{method}: multiplying the vector sigma_k by 3.7 changed the result from {_fmt(got)} to {_fmt(scaled)}'
     if sub != sorted(sub):
         return 'case error: sub must be ascending here'
-    if not close(got, want, max(_tol(method, kind), 1e-9)):
+    cmp_ = _rclose if (method == 'bures_metric' and ('unit1' in case or 'unit2' in case)) else close
+    if not cmp_(got, want, _dtype_tol(max(_tol(method, kind), 1e-9), case.get('dtype1'), case.get('dtype2'))):
         return (f'{method}(sigma_k={kind}) on RDMs lacking every pair of conditions {sorted(set(range(n_all)) - set(sub))}: {_fmt(got)}, '
                 f'on the RDMs of the remaining conditions: {_fmt(want)}')
     return None
@@ -457,12 +588,18 @@ def orc_compare_whole_condition(case):
 
 @oracle('C13/from-partials')
 def orc_from_partials(case):
-    """literal spec of the mask producer: every partial RDM lands on the pairs of ITS conditions, everything else is missing"""
+    """literal spec of the mask producer: every partial RDM lands on the pairs of ITS conditions, everything else is missing.
+    sweep keys: label_map ('int': integer condition labels whose order differs from the alphabetical one), conds_form (the
+    pattern descriptor of the partial RDMs as list / tuple / ndarray), dtype ('float32' partial RDMs), unit"""
     from rsatoolbox.rdm import RDMs
     from rsatoolbox.rdm.combine import from_partials
     rs = np.random.RandomState(case['seed'])
     parts, rows = [], []
     given = case.get('all_patterns')
+    lm = {'a': 30, 'b': 10, 'c': 50, 'd': 20, 'e': 40} if case.get('label_map') == 'int' else None
+
+    def lab(nm):
+        return nm if lm is None else lm[nm]
     if given is None:
         order = []
         for names in case['parts']:
@@ -472,20 +609,21 @@ def orc_from_partials(case):
     else:
         order = list(given)
     for names, n_rdm in zip(case['parts'], case['n_rdms']):
-        v = rs.rand(n_rdm, _n_pairs(len(names))) + 0.1
-        parts.append(RDMs(v.copy(), pattern_descriptors={'conds': list(names)}))
+        v = (rs.rand(n_rdm, _n_pairs(len(names))) + 0.1) * case.get('unit', 1.0)
+        vin, v = _typed(v, case.get('dtype'))
+        parts.append(RDMs(vin, pattern_descriptors={'conds': _as_form([lab(nm) for nm in names], case.get('conds_form'))}))
         rows.append(_spec_partials(v, [order.index(nm) for nm in names], len(order)))
     want = np.concatenate(rows, axis=0)
     with warnings.catch_warnings():
         warnings.simplefilter('ignore')
-        res = from_partials(parts) if given is None else from_partials(parts, all_patterns=list(given))
+        res = from_partials(parts) if given is None else from_partials(parts, all_patterns=[lab(nm) for nm in given])
     got = np.asarray(res.dissimilarities, dtype=float)
     if got.shape != want.shape:
         return f'from_partials gives shape {got.shape}, expected {want.shape}'
-    if not close(got, want, 1e-12):
+    if not _rclose(got, want, 1e-12):
         return f'from_partials({case["parts"]}, all_patterns={given}): {_fmt(got)}, literal placement gives {_fmt(want)}'
-    if list(res.pattern_descriptors.get('conds', [])) != order:
-        return f'pattern descriptor of the result is {list(res.pattern_descriptors.get("conds", []))}, expected {order}'
+    if list(res.pattern_descriptors.get('conds', [])) != [lab(nm) for nm in order]:
+        return f'pattern descriptor of the result is {list(res.pattern_descriptors.get("conds", []))}, expected {[lab(nm) for nm in order]}'
     return None
 
 
@@ -538,6 +676,10 @@ def orc_compare_differ(case):
     b = _with_nan(rs.rand(len(rows2), P) + 0.1, [list(r) for r in rows2])
     if all(set(r) == set(rows1[0]) for r in list(rows1) + list(rows2)):
         return 'case error: masks do not differ'
+    # sweep keys: unit1 / unit2, dtype1 / dtype2 ('float32'), form1 / form2
+    a, _ = _typed(a * case.get('unit1', 1.0), case.get('dtype1'))
+    b, _ = _typed(b * case.get('unit2', 1.0), case.get('dtype2'))
+    a, b = _stack_form(a, n, case.get('form1')), _stack_form(b, n, case.get('form2'))
     method = case['method']
     arg, _ = _sigma(case.get('sigma', 'none'), n, rs)
     kw = dict(sigma_k=arg) if method.endswith('_cov') else {}
@@ -592,8 +734,15 @@ POOL_METHODS = ['euclid', 'neg_riem_dist', 'cosine', 'corr', 'cosine_cov', 'corr
                 'tau-b', 'tau-a']
 
 
+def _row_units(case, R):
+    u = case.get('units', 1.0)
+    return np.array(u, dtype=float).reshape(-1, 1) if isinstance(u, (list, tuple)) else np.full((R, 1), float(u))
+
+
 @oracle('C13/pool')
 def orc_pool(case):
+    """sweep keys: units (one positive factor for the stack or one per RDM), dtype ('float32'; integer types with `levels` for
+    complete stacks), again (another stack of the same shape with another mask in between, then the identical call)"""
     from rsatoolbox.rdm import RDMs
     rs = np.random.RandomState(case['seed'])
     n = case['n_cond']
@@ -603,40 +752,77 @@ def orc_pool(case):
     keep[missing] = False
     method = case['method']
     v = _values(rs, case['n_rdm'], P, case.get('ties', False), keep)
-    vn = _with_nan(v, missing)
+    if case.get('levels'):
+        v = np.round(v / v.max() * case['levels'])
+    v = v * _row_units(case, case['n_rdm'])
+    vn, vs = _typed(_with_nan(v, missing), case.get('dtype'))
+    v = np.where(np.isnan(vs), v, vs)
+    if not all(len(set(row[keep].tolist())) >= 2 for row in v):
+        return 'case error: a typed row is constant'
     before = vn.copy()
     rdms = RDMs(vn, pattern_descriptors={'conds': ['c%d' % i for i in range(n)]})
-    with warnings.catch_warnings():
-        warnings.simplefilter('ignore')
-        if case['copy'] == 'inference_util':
-            from rsatoolbox.util.inference_util import pool_rdm
-            got = pool_rdm(rdms, method=method)
-            want_k = _spec_pool(method, v[:, keep], None, 0.0)
-            tol = 1e-9
-        else:
+
+    def call(obj):
+        with warnings.catch_warnings():
+            warnings.simplefilter('ignore')
+            if case['copy'] == 'inference_util':
+                from rsatoolbox.util.inference_util import pool_rdm
+                return pool_rdm(obj, method=method)
             from rsatoolbox.util.pooling import pool_rdm
-            arg, S = _sigma(case.get('sigma', 'none'), n, rs)
-            if method in ('neg_riem_dist',):
-                return 'case error: util.pooling has no neg_riem_dist'
-            got = pool_rdm(rdms, method=method, sigma_k=arg)
-            Vk = _spec_V(n, S)[keep][:, keep] if method.endswith('_cov') else None
-            want_k = _spec_pool(method, v[:, keep], Vk, 0.01)
-            tol = 1e-4 if method.endswith('_cov') else 1e-9      # conjugate gradients with rtol 1e-5 in the real code
-    want = np.full((1, P), np.nan)
-    want[0, keep] = want_k
+            return pool_rdm(obj, method=method, sigma_k=arg)
+
+    def spec(x, kp):
+        if case['copy'] == 'inference_util':
+            wk = _spec_pool(method, x[:, kp], None, 0.0)
+        else:
+            wk = _spec_pool(method, x[:, kp], _spec_V(n, S)[kp][:, kp] if method.endswith('_cov') else None, 0.01)
+        w = np.full((1, P), np.nan)
+        w[0, kp] = wk
+        return w
+    arg = S = None
+    if case['copy'] == 'inference_util':
+        tol = 1e-9
+    else:
+        arg, S = _sigma(case.get('sigma', 'none'), n, rs)
+        if method in ('neg_riem_dist',):
+            return 'case error: util.pooling has no neg_riem_dist'
+        tol = 1e-4 if method.endswith('_cov') else 1e-9      # conjugate gradients with rtol 1e-5 in the real code
+    tol = _dtype_tol(tol, case.get('dtype'))
+    got = call(rdms)
+    want = spec(v, keep)
     g = got.get_vectors()
     if g.shape != want.shape:
         return f'pooled RDM has shape {g.shape}, expected {want.shape}'
-    if not close(g, want, tol):
+    # pooled RDMs carry the unit of the stack for some methods: relative to their own magnitude when units are swept
+    cmp_ = _rclose if 'units' in case else close
+    if not cmp_(g, want, tol):
         return (f'pool_rdm[{case["copy"]}]({method}) on the common mask {missing}: got {_fmt(g)}, pooling the '
                 f'entry-deleted RDMs gives {_fmt(want)}')
     if not np.array_equal(rdms.dissimilarities, before, equal_nan=True):
         return 'pool_rdm modified its input'
+    if case.get('again'):
+        g_held = np.array(g, dtype=float)
+        miss2 = _other_mask(missing, P)
+        keep2 = np.ones(P, bool)
+        keep2[miss2] = False
+        v2 = _values(rs, case['n_rdm'], P, case.get('ties', False), keep2)
+        g2 = call(RDMs(_with_nan(v2, miss2))).get_vectors()
+        if not close(g2, spec(v2, keep2), tol):
+            return (f'pool_rdm[{case["copy"]}]({method}): after a call with the mask {missing}, another stack of the same shape '
+                    f'missing {miss2} gives {_fmt(g2)}, definition {_fmt(spec(v2, keep2))}')
+        g3 = call(rdms).get_vectors()
+        if not np.array_equal(g3, g_held, equal_nan=True):
+            return f'pool_rdm[{case["copy"]}]({method}): the identical call gives {_fmt(g3)} after {_fmt(g_held)}'
+        if not np.array_equal(np.asarray(got.get_vectors(), dtype=float), g_held, equal_nan=True):
+            return f'pool_rdm[{case["copy"]}]({method}): the pooled RDM held by the caller changed in later calls'
     return None
 
 
 @oracle('C13/noise-ceiling')
 def orc_noise_ceiling(case):
+    """sweep keys: units (per stack or per RDM), dtype ('float32'), groups (boot: rdm descriptor 'subj' with repeated / interleaved /
+    unbalanced str values, one level left out at a time), sample in any order and sample_form, by ('str': patterns selected by a
+    str-valued descriptor) for cv"""
     from rsatoolbox.rdm import RDMs
     from rsatoolbox.inference.noise_ceiling import boot_noise_ceiling, cv_noise_ceiling
     rs = np.random.RandomState(case['seed'])
@@ -649,26 +835,52 @@ def orc_noise_ceiling(case):
         keep = np.ones(P, bool)
         keep[missing] = False
         v = _values(rs, R, P, False, keep)
-        rdms = RDMs(_with_nan(v, missing))
+        vin, vs = _typed(_with_nan(v * _row_units(case, R), missing), case.get('dtype'))
         Vk = _spec_V(n, np.eye(n))[keep][:, keep] if method.endswith('_cov') else None
-        x = v[:, keep]
+        x = vs[:, keep]
         pall = _spec_pool(method, x)
-        lo = np.mean([_spec_sim(method, _spec_pool(method, np.delete(x, i, axis=0)), x[i], Vk) for i in range(R)])
-        hi = np.mean([_spec_sim(method, pall, x[i], Vk) for i in range(R)])
+        if 'groups' in case:
+            grp = list(case['groups'])
+            rdms = RDMs(vin, rdm_descriptors={'subj': list(grp)})
+            los, his = [], []
+            for g in sorted(set(grp)):
+                te = [i for i in range(R) if grp[i] == g]
+                tr = [i for i in range(R) if grp[i] != g]
+                ptr = _spec_pool(method, x[tr])
+                los.append(np.mean([_spec_sim(method, ptr, x[i], Vk) for i in te]))
+                his.append(np.mean([_spec_sim(method, pall, x[i], Vk) for i in te]))
+            lo, hi = np.mean(los), np.mean(his)
+            kw = dict(rdm_descriptor='subj')
+        else:
+            rdms = RDMs(vin)
+            lo = np.mean([_spec_sim(method, _spec_pool(method, np.delete(x, i, axis=0)), x[i], Vk) for i in range(R)])
+            hi = np.mean([_spec_sim(method, pall, x[i], Vk) for i in range(R)])
+            kw = {}
         with warnings.catch_warnings():
             warnings.simplefilter('ignore')
-            got = boot_noise_ceiling(rdms, method=method)
+            got = boot_noise_ceiling(rdms, method=method, **kw)
         what = f'boot_noise_ceiling({method}) on the common mask {missing}'
     else:
         # crossvalidation fold: train RDMs `tr`, test RDMs `te`, test patterns = a pattern bootstrap sample
         sample = sorted(case['sample'])
+        given = _as_form(case['sample'], case.get('sample_form', 'ndarray'))
         v = rs.rand(R, _n_pairs(n)) + 0.1
+        vin, v = _typed(v * _row_units(case, R), case.get('dtype'))
         tr, te = list(case['train']), list(case['test'])
-        rdms = RDMs(v.copy())
-        train = RDMs(v[tr].copy())
-        test = RDMs(v[te].copy()).subsample_pattern('index', sample)
+        if case.get('by') == 'str':
+            lab = _labels('str', n)
+            rdms = RDMs(vin.copy(), pattern_descriptors={'lab': list(lab)})
+            train = RDMs(vin[tr].copy(), pattern_descriptors={'lab': list(lab)})
+            given = _as_form([lab[i] for i in case['sample']], case.get('sample_form', 'ndarray'))
+            test = RDMs(vin[te].copy(), pattern_descriptors={'lab': list(lab)}).subsample_pattern('lab', given)
+            kw = dict(pattern_descriptor='lab')
+        else:
+            rdms = RDMs(vin.copy())
+            train = RDMs(vin[tr].copy())
+            test = RDMs(vin[te].copy()).subsample_pattern('index', _as_form(case['sample'], case.get('sample_form')))
+            kw = {}
         sub = _spec_subsample(v, n, sample)
-        if not close(test.get_vectors(), sub[te], 1e-12):
+        if not _rclose(test.get_vectors(), sub[te], 1e-12):
             return 'subsample_pattern did not give the literal bootstrap RDM'
         keep = ~np.isnan(sub[0])
         ns = len(sample)
@@ -680,10 +892,10 @@ def orc_noise_ceiling(case):
         hi = np.mean([_spec_sim(method, p_all, sub[i][keep], Vk) for i in te])
         with warnings.catch_warnings():
             warnings.simplefilter('ignore')
-            got = cv_noise_ceiling(rdms, [(train, np.array(sample))], [(test, np.array(sample))], method=method)
-        what = f'cv_noise_ceiling({method}) with test patterns {sample}'
+            got = cv_noise_ceiling(rdms, [(train, given)], [(test, given)], method=method, **kw)
+        what = f'cv_noise_ceiling({method}) with test patterns {list(case["sample"])}'
     got = np.array(got, dtype=float)
-    if not close(got, np.array([lo, hi]), 1e-8):
+    if not close(got, np.array([lo, hi]), _dtype_tol(1e-8, case.get('dtype'))):
         return f'{what}: got (lower, upper) = {_fmt(got)}, definition on the entry-deleted RDMs gives {_fmt([lo, hi])}'
     return None
 
@@ -711,6 +923,9 @@ def _spec_theta(X, y, Vk, ridge, nonneg):
 
 @oracle('C13/fit-regress')
 def orc_fit_regress(case):
+    """sweep keys: unit_model (one positive factor for all basis RDMs), unit_data (per stack or per RDM), dtype_model / dtype_data
+    ('float32'), sample in any order / sample_form / by ('str') for the pattern_idx route, again (model and data unchanged, the
+    identical call gives the identical weights after a fit of other RDMs of the same shape).  Every call runs under a 20 s alarm."""
     from rsatoolbox.rdm import RDMs
     from rsatoolbox.model import ModelWeighted
     from rsatoolbox.model.fitter import fit_regress, fit_regress_nn
@@ -722,6 +937,10 @@ def orc_fit_regress(case):
     ridge = case.get('ridge', 0.0)
     fit = fit_regress_nn if nonneg else fit_regress
     kw = {}
+    um = float(case.get('unit_model', 1.0))
+    ud = np.array(case['unit_data'], dtype=float).reshape(-1, 1) if isinstance(case.get('unit_data'), (list, tuple)) \
+        else float(case.get('unit_data', 1.0))
+    dm, dd = case.get('dtype_model'), case.get('dtype_data')
     if case['route'] == 'explicit':
         P = _n_pairs(n)
         missing = list(case['missing'])
@@ -729,20 +948,31 @@ def orc_fit_regress(case):
         keep[missing] = False
         B = rs.rand(k, P) + 0.1
         Y = rs.rand(R, P) + 0.1
-        model = ModelWeighted('m', RDMs(_with_nan(B, missing)))
-        data = RDMs(_with_nan(Y, missing))
+        Bin, B = _typed(_with_nan(B * um, missing), dm)
+        Yin, Y = _typed(_with_nan(Y * ud, missing), dd)
+        model = ModelWeighted('m', RDMs(Bin))
+        data = RDMs(Yin)
         Xk, Yk, n_eff = B[:, keep], Y[:, keep], n
     else:
         # pattern_idx route: complete model restricted by the fitter to the bootstrap sample, data already subsampled
         sample = sorted(case['sample'])
         B = rs.rand(k, _n_pairs(n)) + 0.1
         Y = rs.rand(R, _n_pairs(n)) + 0.1
-        model = ModelWeighted('m', RDMs(B.copy()))
-        data = RDMs(Y.copy()).subsample_pattern('index', sample)
+        Bin, B = _typed(B * um, dm)
+        Yin, Y = _typed(Y * ud, dd)
+        if case.get('by') == 'str':
+            lab = _labels('str', n)
+            given = _as_form([lab[i] for i in case['sample']], case.get('sample_form', 'ndarray'))
+            model = ModelWeighted('m', RDMs(Bin, pattern_descriptors={'lab': list(lab)}))
+            data = RDMs(Yin, pattern_descriptors={'lab': list(lab)}).subsample_pattern('lab', given)
+            kw = dict(pattern_idx=given, pattern_descriptor='lab')
+        else:
+            model = ModelWeighted('m', RDMs(Bin))
+            data = RDMs(Yin).subsample_pattern('index', _as_form(case['sample'], case.get('sample_form')))
+            kw = dict(pattern_idx=_as_form(case['sample'], case.get('sample_form', 'ndarray')), pattern_descriptor='index')
         sb, sy = _spec_subsample(B, n, sample), _spec_subsample(Y, n, sample)
         keep = ~np.isnan(sb[0])
         Xk, Yk, n_eff = sb[:, keep], sy[:, keep], len(sample)
-        kw = dict(pattern_idx=np.array(sample), pattern_descriptor='index')
     arg, S = _sigma(case.get('sigma', 'none'), n_eff, rs)
     # the training RDMs are pooled under the criterion's own metric V(sigma_k) (the oracle used to mirror the fitters' former
     # behaviour of pooling without sigma_k -- an oracle error found when /repo commit 3a124530 repaired that defect, see C08 F1/F2)
@@ -755,16 +985,43 @@ def orc_fit_regress(case):
     if method == 'corr_cov':
         y = y - y.mean()
     want = _spec_theta(X, y, Vk, ridge, nonneg)
-    with warnings.catch_warnings():
-        warnings.simplefilter('ignore')
-        got = np.asarray(fit(model, data, method=method, ridge_weight=ridge, sigma_k=arg, **kw), dtype=float)
+    m_before = np.array(model.rdm_obj.dissimilarities, copy=True)
+    d_before = np.array(data.dissimilarities, copy=True)
+    what = (f'{fit.__name__}({method}, sigma_k={case.get("sigma", "none")}, ridge={ridge}, route={case["route"]}) with '
+            f'missing entries {np.where(~keep)[0].tolist()}')
+
+    def call(mod, dat):
+        with warnings.catch_warnings(), _TimeLimit(20):
+            warnings.simplefilter('ignore')
+            return np.array(fit(mod, dat, method=method, ridge_weight=ridge, sigma_k=arg, **kw), dtype=float)
+    try:
+        got = call(model, data)
+    except TimeoutError as e:
+        return f'{what}: {e}'
     if got.shape != want.shape:
         return f'theta has shape {got.shape}, expected {want.shape}'
     # whitened: the fitters solve V x = b by conjugate gradients with rtol 1e-5 (seen: 1e-5 on theta)
-    if not close(got, want, 1e-4 if method.endswith('_cov') else 1e-7):
-        return (f'{fit.__name__}({method}, sigma_k={case.get("sigma", "none")}, ridge={ridge}, route={case["route"]}) with '
-                f'missing entries {np.where(~keep)[0].tolist()}: theta {_fmt(got)}, generalised least squares on the '
+    if not close(got, want, _dtype_tol(1e-4 if method.endswith('_cov') else 1e-7, dm, dd)):
+        return (f'{what}: theta {_fmt(got)}, generalised least squares on the '
                 f'entry-deleted vectors gives {_fmt(want)}')
+    if case.get('again'):
+        if not (np.array_equal(model.rdm_obj.dissimilarities, m_before, equal_nan=True)
+                and np.array_equal(data.dissimilarities, d_before, equal_nan=True)):
+            return f'{what}: the fit modified the model or data RDMs'
+        if case['route'] == 'explicit':
+            # other RDMs of the same shape with another mask of the same size in between
+            miss2 = _other_mask(missing, _n_pairs(n))
+            B2, Y2 = rs.rand(k, _n_pairs(n)) + 0.1, rs.rand(R, _n_pairs(n)) + 0.1
+            try:
+                call(ModelWeighted('m2', RDMs(_with_nan(B2, miss2))), RDMs(_with_nan(Y2, miss2)))
+            except TimeoutError as e:
+                return f'{what}: {e}'
+        try:
+            got2 = call(model, data)
+        except TimeoutError as e:
+            return f'{what}: {e}'
+        if not np.array_equal(got2, got):
+            return f'{what}: the identical call gives {_fmt(got2)} after {_fmt(got)}'
     return None
 
 
@@ -794,6 +1051,9 @@ def orc_fit_differ(case):
 # =====================================================================================================
 @oracle('C13/mean')
 def orc_mean(case):
+    """sweep keys: dtype ('float32'; integer types for complete stacks), unit (positive factor of the RDMs), w_unit (positive factor
+    of all weights: the weighted mean does not change), w_int (integer-typed weights 1..5); weights kinds 'array-per-rdm-1d'
+    (one weight per RDM as ndarray argument) and 'descriptor-per-rdm-ndarray' (the rdm descriptor is an ndarray)"""
     from rsatoolbox.rdm import RDMs
     rs = np.random.RandomState(case['seed'])
     n = case['n_cond']
@@ -801,41 +1061,57 @@ def orc_mean(case):
     rows = [list(r) for r in case['rows']]
     R = len(rows)
     x = _with_nan(rs.rand(R, P) + 0.1 + 3 * np.arange(R)[:, None], rows)   # rows on clearly different levels
+    if case.get('levels'):
+        x = np.round(x / np.nanmax(x) * case['levels'])
+    xin, x = _typed(x * case.get('unit', 1.0), case.get('dtype'))
     wkind = case['weights']
     names = ['p%d' % i for i in range(n)]
-    rdms = RDMs(x.copy(), pattern_descriptors={'conds': names}, rdm_descriptors={'subj': list(range(10, 10 + R))})
+    rdms = RDMs(xin.copy(), pattern_descriptors={'conds': names}, rdm_descriptors={'subj': list(range(10, 10 + R))})
     w_eff = np.ones((R, P))
     arg = None
     snapshot = None
+    wu = case.get('w_unit', 1.0)
+
+    def draw(*shape):
+        if case.get('w_int'):
+            return rs.randint(1, 6, size=shape)
+        return (rs.rand(*shape) + 0.2) * wu
     if wkind == 'none':
         pass
     elif wkind in ('array-nan-at-missing', 'array-finite-at-missing'):
-        w_eff = rs.rand(R, P) + 0.2
+        w_eff = draw(R, P)
         arg = w_eff.copy()
         if wkind == 'array-nan-at-missing':
+            arg = arg.astype(float)
             arg[np.isnan(x)] = np.nan
         snapshot = arg.copy()
     elif wkind == 'per-rdm-tiled-array-nan-at-missing':
-        wr = rs.rand(R) + 0.2
+        wr = draw(R)
         w_eff = np.tile(wr[:, None], (1, P))
-        arg = w_eff.copy()
+        arg = w_eff.astype(float)
         arg[np.isnan(x)] = np.nan
         snapshot = arg.copy()
-    elif wkind == 'descriptor-per-rdm':
-        wr = (rs.rand(R) + 0.2).tolist()
+    elif wkind == 'array-per-rdm-1d':
+        wr = draw(R)
+        w_eff = np.tile(wr[:, None], (1, P))
+        arg = wr.copy()
+        snapshot = arg.copy()
+    elif wkind in ('descriptor-per-rdm', 'descriptor-per-rdm-ndarray'):
+        wr = draw(R).tolist()
         w_eff = np.tile(np.array(wr)[:, None], (1, P))
-        rdms.rdm_descriptors['w'] = list(wr)
+        rdms.rdm_descriptors['w'] = list(wr) if wkind == 'descriptor-per-rdm' else np.array(wr)
         arg = 'w'
         snapshot = list(wr)
     elif wkind in ('descriptor-array-nan-at-missing',):
-        w_eff = rs.rand(R, P) + 0.2
-        stored = w_eff.copy()
+        w_eff = draw(R, P)
+        stored = w_eff.astype(float)
         stored[np.isnan(x)] = np.nan
         rdms.rdm_descriptors['w'] = stored
         arg = 'w'
         snapshot = stored.copy()
     else:
         return f'case error: unknown weights kind {wkind}'
+    w_eff = np.asarray(w_eff, dtype=float)
     want = np.full((1, P), np.nan)
     for kk in range(P):
         num = den = 0.0
@@ -853,12 +1129,12 @@ def orc_mean(case):
     got = np.asarray(m.dissimilarities, dtype=float)
     if got.shape != want.shape:
         return f'mean has shape {got.shape}, expected {want.shape}'
-    if not close(got, want, 1e-10):
+    if not (_rclose if 'unit' in case else close)(got, want, _dtype_tol(1e-10, case.get('dtype'))):
         return (f'mean(weights={wkind}) of RDMs missing {rows}: got {_fmt(got)}, weighted mean over the RDMs that have '
                 f'the entry gives {_fmt(want)}')
     if list(m.pattern_descriptors.get('conds', [])) != names:
         return 'mean lost the pattern descriptors'
-    if not np.array_equal(rdms.dissimilarities, x, equal_nan=True):
+    if not np.array_equal(rdms.dissimilarities, xin, equal_nan=True):
         return 'mean modified the dissimilarities of the RDMs'
     if isinstance(arg, np.ndarray) and not np.array_equal(arg, snapshot, equal_nan=True):
         return f"mean modified the caller's weights array: {_fmt(arg)} was {_fmt(snapshot)}"
@@ -903,7 +1179,7 @@ class _TimeLimit:
 
 
 
-def _check_constants(out, orig, what):
+def _check_constants(out, orig, what, rtol=1e-9):
     """each row of out = positive constant x row of orig, NaN pattern kept.  returns (message|None, constants)"""
     if out.shape != orig.shape:
         return f'{what}: shape {out.shape}, expected {orig.shape}', None
@@ -919,7 +1195,7 @@ def _check_constants(out, orig, what):
         consts[r] = c
         if not (c > 0 and np.all(np.isfinite(ratio))):
             return f'{what}: RDM {r} is not multiplied by a positive constant (ratios {_fmt(ratio)})', None
-        if np.max(np.abs(ratio / c - 1)) > 1e-9:
+        if np.max(np.abs(ratio / c - 1)) > rtol:
             return f'{what}: RDM {r} is not multiplied by ONE constant (ratios out/in {_fmt(ratio)})', None
         z = ~np.isnan(orig[r]) & (orig[r] == 0)
         if z.any() and np.any(out[r, z] != 0):
@@ -957,7 +1233,9 @@ def orc_rescale(case):
         r0 = 0
         k0 = [k for k in range(P) if k not in rows[r0]][0]
         x[r0, k0] = 0.0
-    rdms = RDMs(x.copy(), rdm_descriptors={'subj': ['s%d' % r for r in range(R)]},
+    # sweep keys: unit (positive factor of the whole stack), dtype ('float32'), again (the identical call gives the identical result)
+    xin, x = _typed(x * case.get('unit', 1.0), case.get('dtype'))
+    rdms = RDMs(xin.copy(), rdm_descriptors={'subj': ['s%d' % r for r in range(R)]},
                 pattern_descriptors={'conds': ['p%d' % i for i in range(n)]})
     method = case['method']
     kw = {} if case.get('threshold') is None else dict(threshold=case['threshold'])
@@ -969,7 +1247,7 @@ def orc_rescale(case):
     except TimeoutError as e:
         return f'{what}: {e}'
     out = np.asarray(res.dissimilarities, dtype=float)
-    msg, _ = _check_constants(out, x, what)
+    msg, _ = _check_constants(out, x, what, _dtype_tol(1e-9, case.get('dtype')))
     if msg:
         return msg
     msg = _check_weights_descriptor(res, x, what)
@@ -979,7 +1257,7 @@ def orc_rescale(case):
         return f'{what}: rdm descriptors of the input were not carried over'
     if list(res.pattern_descriptors.get('conds', [])) != ['p%d' % i for i in range(n)]:
         return f'{what}: pattern descriptors were not carried over'
-    if not np.array_equal(rdms.dissimilarities, x, equal_nan=True):
+    if not np.array_equal(rdms.dissimilarities, xin, equal_nan=True):
         return f'{what}: the input RDMs were modified'
     if 'rescalingWeights' in rdms.rdm_descriptors:
         return f"{what}: 'rescalingWeights' was added to the INPUT object"
@@ -994,9 +1272,20 @@ def orc_rescale(case):
         with warnings.catch_warnings():
             warnings.simplefilter('ignore')
             got = res.mean(weights='rescalingWeights').dissimilarities
-        if not close(got, want, 1e-10):
+        if not _rclose(got, want, _dtype_tol(1e-10, case.get('dtype'))):
             return (f"{what}: mean(weights='rescalingWeights') gives {_fmt(got)}, weighted mean over available entries "
                     f'is {_fmt(want)}')
+    if case.get('again'):
+        try:
+            with warnings.catch_warnings(), _TimeLimit(20):
+                warnings.simplefilter('ignore')
+                out2 = np.asarray(rescale(rdms, method=method, **kw).dissimilarities, dtype=float)
+        except TimeoutError as e:
+            return f'{what}: {e}'
+        if not np.array_equal(out2, out, equal_nan=True):
+            return f'{what}: the identical call gives {_fmt(out2)} after {_fmt(out)}'
+        if not np.array_equal(np.asarray(res.dissimilarities, dtype=float), out, equal_nan=True):
+            return f'{what}: the result held by the caller changed in the later call'
     return None
 
 
@@ -1022,7 +1311,8 @@ def _proportional_stack(case, rs):
     else:
         raise ValueError(kind)
     pts = rs.rand(n, 3)
-    full = np.array([np.sqrt(((pts[i] - pts[j]) ** 2).sum()) + 0.2 for (i, j) in _pairs(n)])
+    # sweep keys: unit (the underlying RDM in other units), dtype ('float32' partial RDMs)
+    full = np.array([np.sqrt(((pts[i] - pts[j]) ** 2).sum()) + 0.2 for (i, j) in _pairs(n)]) * case.get('unit', 1.0)
     names = ['c%02d' % i for i in range(n)]
     if subs is not None:
         parts = []
@@ -1030,12 +1320,13 @@ def _proportional_stack(case, rs):
         pos = {p: a for a, p in enumerate(_pairs(n))}
         for r, (sub, sc) in enumerate(zip(subs, scales)):
             v = np.array([full[pos[(min(sub[i], sub[j]), max(sub[i], sub[j]))]] for (i, j) in _pairs(len(sub))]) * sc
-            parts.append(RDMs(v[None, :].copy(), pattern_descriptors={'conds': [names[i] for i in sub]}))
-            spec[r] = _spec_partials(v[None, :], sub, n)[0]
+            vin, vv = _typed(v[None, :], case.get('dtype'))
+            parts.append(RDMs(vin, pattern_descriptors={'conds': [names[i] for i in sub]}))
+            spec[r] = _spec_partials(vv, sub, n)[0]
         rdms = from_partials(parts, all_patterns=names)
     else:
-        spec = _with_nan(np.array([full * sc for sc in scales]), [list(r) for r in case['rows']])
-        rdms = RDMs(spec.copy())
+        sin, spec = _typed(_with_nan(np.array([full * sc for sc in scales]), [list(r) for r in case['rows']]), case.get('dtype'))
+        rdms = RDMs(sin)
     return rdms, np.array(scales), spec
 
 
@@ -1058,7 +1349,7 @@ def orc_rescale_prop(case):
     from rsatoolbox.rdm.combine import rescale
     rs = np.random.RandomState(case['seed'])
     rdms, scales, spec = _proportional_stack(case, rs)
-    if not close(rdms.dissimilarities, spec, 1e-12):
+    if not _rclose(rdms.dissimilarities, spec, 1e-12):
         return 'from_partials did not give the literal partial RDMs'
     if not _connected(spec):
         return 'case error: overlap graph not connected'
@@ -1074,7 +1365,7 @@ def orc_rescale_prop(case):
     except TimeoutError as e:
         return f'{what}: {e}'
     out = np.asarray(res.dissimilarities, dtype=float)
-    msg, consts = _check_constants(out, spec, what)
+    msg, consts = _check_constants(out, spec, what, _dtype_tol(1e-9, case.get('dtype')))
     if msg:
         return msg
     msg = _check_weights_descriptor(res, spec, what)
@@ -1095,6 +1386,128 @@ def orc_rescale_prop(case):
     if worst > tol or undo_dev > tol:
         return (f'{what}: not on a common scale (tolerance {tol:g}) -- shared entries of RDM {where} differ by a factor {1 + worst:.6g}; '
                 f'constant x true scale relative to RDM 0 = {_fmt(undo / undo[0])} (should all be 1)')
+    return None
+
+
+# =====================================================================================================
+# environment: new interpreters with other hash seeds
+# =====================================================================================================
+_CHILD = r"""
+import json, sys, warnings
+import numpy as np
+warnings.simplefilter('ignore')
+from rsatoolbox.rdm import RDMs, compare
+from rsatoolbox.rdm.combine import from_partials, rescale
+from rsatoolbox.util.inference_util import pool_rdm
+job = json.load(sys.stdin)
+out = {}
+with np.errstate(all='ignore'):
+    def build(parts):
+        return [RDMs(np.array(p['v'], dtype=float), pattern_descriptors={'conds': list(p['conds'])},
+                     rdm_descriptors={'w': list(p['w'])}, descriptors={'session': p['session']}) for p in parts]
+    fa = from_partials(build(job['a']))
+    fb = from_partials(build(job['b']), all_patterns=list(fa.pattern_descriptors['conds']))
+    out['conds'] = list(fa.pattern_descriptors['conds'])
+    out['va'] = [[None if np.isnan(x) else float(x) for x in r] for r in fa.dissimilarities]
+    out['w'] = [float(x) for x in fa.rdm_descriptors['w']]
+    out['compare'] = {m: np.asarray(compare(fa, fb, method=m), dtype=float).tolist() for m in job['methods']}
+    out['mean'] = [None if np.isnan(x) else float(x) for x in fa.mean(weights='w').dissimilarities[0]]
+    out['pool'] = [None if np.isnan(x) else float(x) for x in pool_rdm(fa, method='corr').dissimilarities[0]]
+    rsc = rescale(fa, method='simple')
+    out['rescale'] = [[None if np.isnan(x) else float(x) for x in r] for r in rsc.dissimilarities]
+json.dump(out, sys.stdout)
+"""
+
+
+def _nan_list(a):
+    return np.array([[np.nan if x is None else x for x in r] for r in a], dtype=float)
+
+
+@oracle('C13/fresh-interpreter')
+def orc_fresh_interpreter(case):
+    """environment: interpreters started with other PYTHONHASHSEEDs build the same partial RDMs from str-labelled conditions (union
+    of the labels in order of appearance), and give the entry-deleted comparison values, the weighted mean and -- compared with
+    this process -- the same pooled and rescaled RDMs"""
+    import json
+    import os
+    import subprocess
+    import sys
+    from rsatoolbox.rdm import RDMs, compare
+    from rsatoolbox.rdm.combine import from_partials, rescale
+    from rsatoolbox.util.inference_util import pool_rdm
+    rs = np.random.RandomState(case['seed'])
+    order = []
+    for names in case['parts']:
+        for nm in names:
+            if nm not in order:
+                order.append(nm)
+    n = len(order)
+
+    def make():
+        parts, rows, ws = [], [], []
+        for pi_, names in enumerate(case['parts']):
+            v = rs.rand(2, _n_pairs(len(names))) + 0.1
+            w = (rs.rand(2) + 0.2).tolist()
+            parts.append(dict(v=v.tolist(), conds=list(names), w=w, session='ses-%d' % pi_))
+            rows.append(_spec_partials(v, [order.index(nm) for nm in names], n))
+            ws += w
+        return parts, np.concatenate(rows, axis=0), np.array(ws)
+    pa, sa, wa = make()
+    pb, sb, _ = make()
+    methods = ['cosine', 'corr', 'spearman', 'kendall', 'tau-a', 'rho-a', 'cosine_cov', 'corr_cov']
+    # the definition: all RDMs of one stack must share the mask for compare -> only cases whose parts have the same condition set
+    # are compared; otherwise the comparison part is skipped
+    same_mask = all(np.array_equal(np.isnan(r), np.isnan(sa[0])) for r in np.concatenate([sa, sb]))
+    job = json.dumps(dict(a=pa, b=pb, methods=methods if same_mask else []))
+    procs = []
+    for hs in case['hashseeds']:
+        env = dict(os.environ, PYTHONHASHSEED=str(hs), MPLBACKEND='Agg')
+        procs.append((hs, subprocess.Popen([sys.executable, '-c', _CHILD], stdin=subprocess.PIPE, stdout=subprocess.PIPE,
+                                           stderr=subprocess.PIPE, env=env, text=True)))
+    outs = []
+    for hs, p in procs:
+        try:
+            o, e = p.communicate(job, timeout=240)
+        except subprocess.TimeoutExpired:
+            p.kill()
+            return f'PYTHONHASHSEED={hs}: the new interpreter did not finish within 240 s'
+        if p.returncode != 0:
+            return f'PYTHONHASHSEED={hs}: the new interpreter failed: {e.strip().splitlines()[-1:]}'
+        outs.append((hs, json.loads(o)))
+    # expected values
+    keep = ~np.isnan(sa[0])
+    want_mean = np.full(_n_pairs(n), np.nan)
+    for kk in range(_n_pairs(n)):
+        have = [r for r in range(sa.shape[0]) if not np.isnan(sa[r, kk])]
+        if have:
+            want_mean[kk] = sum(wa[r] * sa[r, kk] for r in have) / sum(wa[r] for r in have)
+    with warnings.catch_warnings():
+        warnings.simplefilter('ignore')
+        def build(parts):
+            return [RDMs(np.array(q['v'], dtype=float), pattern_descriptors={'conds': list(q['conds'])},
+                         rdm_descriptors={'w': list(q['w'])}, descriptors={'session': q['session']}) for q in parts]
+        here = from_partials(build(pa))
+        here_pool = pool_rdm(here, method='corr').dissimilarities if same_mask else None
+        here_resc = rescale(here, method='simple').dissimilarities
+    for hs, o in outs:
+        tag = f'a new interpreter with PYTHONHASHSEED={hs}'
+        if o['conds'] != order:
+            return f'{tag}: from_partials orders the conditions {o["conds"]}, order of appearance is {order}'
+        if not close(_nan_list(o['va']), sa, 1e-12):
+            return f'{tag}: from_partials gives {_fmt(_nan_list(o["va"]))}, literal placement {_fmt(sa)}'
+        if not close(o['w'], wa, 1e-15):
+            return f'{tag}: rdm descriptor w of the partial RDMs is {o["w"]}, expected {wa.tolist()}'
+        for m in (methods if same_mask else []):
+            Vk = _spec_V(n, np.eye(n))[keep][:, keep] if m.endswith('_cov') else None
+            want = _spec_compare(m, sa, sb, keep, Vk)
+            if not close(np.array(o['compare'][m], dtype=float), want, _tol(m)):
+                return f'{tag}: {m} = {o["compare"][m]}, entry-deleted definition {_fmt(want)}'
+        if not close(_nan_list([o['mean']])[0], want_mean, 1e-10):
+            return f'{tag}: mean(weights=descriptor) = {o["mean"]}, weighted mean over available entries {_fmt(want_mean)}'
+        if same_mask and not close(_nan_list([o['pool']]), here_pool, 1e-12):
+            return f'{tag}: pooled RDM {o["pool"]}, this process {_fmt(here_pool)}'
+        if not close(_nan_list(o['rescale']), here_resc, 1e-12):
+            return f'{tag}: rescaled RDMs {_fmt(_nan_list(o["rescale"]))}, this process {_fmt(here_resc)}'
     return None
 
 
@@ -1554,10 +1967,92 @@ def tier_c(run, thorough):
             bd.check(orc_rescale_prop, dict(for_method(base_case, label, method), threshold=None, tol=0.25), lab, function='_rescale')
     bd.done()
     bds.append(bd)
+    _sweeps(run, thorough, bds)
     return bds
 
 
-def run(run):
+# =====================================================================================================
+# dimension sweeps (tools/SWEEP_BRIEF.md): the same clauses, inputs varied along further dimensions
+# =====================================================================================================
+UNIT_PAIRS = [(1e-12, 1.0), (1.0, 1e-20), (1e8, 1e-12), (1e12, 1e12)]
+
+
+def _seeded_masks(rs, P, kmax, count, kmin=1):
+    out = []
+    while len(out) < count:
+        k = int(rs.randint(kmin, kmax + 1))
+        m = sorted(rs.choice(P, k, replace=False).tolist())
+        if m not in out:
+            out.append(m)
+    return out
+
+
+def _sweeps(run, thorough, bds):
+    def sig_for(method, kinds=('none', 'vector', 'matrix')):
+        return list(kinds) if method.endswith('_cov') else ['none']
+
+    # ---------------------------------------------------------------- compare, same masks
+    bd = Bounded(run, 'C13/compare-same-mask[sizes, typed, units, forms, repeated calls]',
+                 'C13/compare/oracle/same-mask-equals-entry-deleted',
+                 'n_cond=4 (all masks <= 2 missing, every %s) and n_cond=5 (<= 1 missing): stacks of 1x1, 1x4, 5x1 RDMs; n_cond=3 with 0 / 1 '
+                 'missing pairs (2 entries left); n_cond=7%s with seeded masks of up to 8 missing pairs; float32 stacks (both / one of '
+                 'them), uint8 / int16 / int64 complete stacks over the range of the type; stacks times 1e-20 .. 1e12, sigma_k times '
+                 '1e-12 / 1e8; stacks given as square matrices / Fortran-ordered / non-contiguous view; repeated calls with another '
+                 'mask of the same size in between; 8 vector measures, sigma_k None / vector / matrix'
+                 % ('one' if thorough else 'second one', ', 8, 9' if thorough else ''), function='compare')
+    m4 = list(_masks_upto(6, 2))
+    m5 = list(_masks_upto(10, 1))
+    base = [(4, m) for m in (m4 if thorough else m4[::2])] + [(5, m) for m in (m5 if thorough else m5[::3])]
+
+    def reg(case, cls, method):
+        bd.check(orc_compare_same, case, cls, function='compare_' + method)
+    for bi, (n, missing) in enumerate(base):
+        seed = 7000 + 100 * n + bi
+        for method in VEC_METHODS:
+            for s in sig_for(method):
+                c0 = dict(seed=seed, n_cond=n, missing=missing, method=method, sigma=s)
+                for n1, n2 in ((1, 1), (1, 4), (5, 1)):
+                    reg(dict(c0, n1=n1, n2=n2), 'stack-sizes', method)
+                reg(dict(c0, n1=2, n2=2, dtype1='float32', dtype2='float32'), 'typed-float32', method)
+                reg(dict(c0, n1=2, n2=2, dtype1='float32'), 'typed-float32', method)
+                for ui, (u1, u2) in enumerate(UNIT_PAIRS):
+                    if (bi + ui) % 2 == 0 or thorough:
+                        reg(dict(c0, n1=2, n2=2, unit1=u1, unit2=u2), 'units', method)
+                if s != 'none':
+                    for su in (1e-12, 1e8):
+                        reg(dict(c0, n1=2, n2=2, sigma_unit=su), 'units-sigma_k', method)
+                reg(dict(c0, n1=2, n2=2, dtype1='float32', dtype2='float32', unit1=1e-12, unit2=1e8), 'typed-float32,units', method)
+                f1, f2 = (('matrices', None), ('fortran', 'view'), ('view', 'matrices'))[bi % 3]
+                reg(dict(c0, n1=2, n2=3, form1=f1, form2=f2), 'stack-form', method)
+                reg(dict(c0, n1=2, n2=2, again=True), 'repeated-call', method)
+            if method in ('spearman', 'kendall', 'tau-a', 'rho-a'):
+                reg(dict(seed=seed, n_cond=n, missing=missing, method=method, ties=True, n1=1, n2=3, again=True),
+                    'repeated-call', method)
+                reg(dict(seed=seed, n_cond=n, missing=missing, method=method, ties=True, n1=2, n2=2, dtype1='float32', dtype2='float32'),
+                    'typed-float32', method)
+    for n in (4, 5):
+        for ti, (dt, lev) in enumerate((('uint8', 250), ('int16', 30000), ('int64', 1000), ('uint16', 60000))):
+            for method in VEC_METHODS:
+                for s in sig_for(method, ('none', 'matrix')):
+                    reg(dict(seed=7900 + 10 * n + ti, n_cond=n, missing=[], method=method, sigma=s, n1=2, n2=2, dtype1=dt, dtype2=dt,
+                             levels=lev), 'typed-integer,no-missing', method)
+                    reg(dict(seed=7950 + 10 * n + ti, n_cond=n, missing=[], method=method, sigma=s, n1=2, n2=2, dtype1=dt,
+                             levels=lev), 'typed-integer,no-missing', method)
+    for k in ([], [0], [1], [2]):
+        for method in VEC_METHODS:
+            for s in sig_for(method):
+                reg(dict(seed=7300 + len(k) + sum(k), n_cond=3, missing=k, method=method, sigma=s, n1=2, n2=2),
+                    'three-conditions', method)
+    rs = np.random.RandomState(77)
+    for n in ((7, 8, 9) if thorough else (7,)):
+        for mi, missing in enumerate(_seeded_masks(rs, _n_pairs(n), 8, 6 if thorough else 2)):
+            for method in VEC_METHODS:
+                for s in sig_for(method, ('none', 'matrix')):
+                    reg(dict(seed=7700 + 10 * n + mi, n_cond=n, missing=missing, method=method, sigma=s, n1=3, n2=2), 'more-conditions',
+                        method)
+    bd.done()
+    bds.append(bd)
+
     bds = tier_c(run, run.tier == 'thorough')
     run.explanation = ('tier C only: entry-deleted definitions of all comparison / pooling / noise-ceiling / regression routines on '
                        'bounded mask domains, rejection of differing masks, weighted NaN-aware mean, rescale invariants')
